@@ -21,7 +21,8 @@ ASSUMPTIONS = ["bit-identity is demanded for identical (ta, tb) floats and ident
                "bitwise between different flag combinations of the same interval"]
 REQUIRED_COUNTERS = ["repeats", "repeats_after_eviction", "repeats_after_refinement", "repeats_recomputed",
                      "adjoint_matched_queries", "repeats_with_A", "repeats_cache0", "point_repeats",
-                     "default_dtype_flipping_cases", "second_backward_passes"]
+                     "default_dtype_flipping_cases", "second_backward_passes",
+                     "caller_tensors_checked"]
 CASE_TIMEOUT = 900
 
 
@@ -61,6 +62,7 @@ def run_object(case):
             k2, q2, _ = bmgen.history(cfg, rng, kind="sweep", n=130)
             qs = qs + q2
         bm, base, meta = bmgen.build(cfg, step_hint=step)
+        given = {k: meta[k].clone() for k in ("W", "H", "w0") if meta.get(k) is not None}
         fl_all = [bmgen.flags_for(cfg)]
         if cfg["levy"] != "none":
             fl_all.append(dict(return_U=False, return_A=False))
@@ -153,6 +155,11 @@ def run_object(case):
     cnt["queries"] = len(qs)
     nt = cnt.get("repeats", 0) >= 5 and (cnt.get("repeats_after_eviction", 0) + cnt.get("repeats_after_refinement", 0)
                                          + cnt.get("repeats_recomputed", 0)) >= 1
+    # tensors the caller handed to the constructor (W, H, w0) are the caller's: never modified by queries
+    for k_, v_ in given.items():
+        cnt["caller_tensors_checked"] = cnt.get("caller_tensors_checked", 0) + 1
+        if not torch.equal(meta[k_], v_):
+            viol.append({"mechanism": f"caller_tensor_modified:{k_}:{cfg['wrapper']}", "detail": f"cfg={cfg}"})
     return {"violations": viol, "counters": cnt, "max": mx, "nontrivial": nt,
             "sample": {"history": kind, "queries": len(qs), "repeats": cnt.get("repeats", 0),
                        "after_eviction": cnt.get("repeats_after_eviction", 0),
